@@ -324,12 +324,10 @@ class C02(CheckBase):
 
 
 # ------------------------------------------------------------------------------------------------ template-length ladder
-FILLERS = [(C.CKA_LABEL, b"ladder"), (C.CKA_ID, b"id"), (C.CKA_ENCRYPT, True), (C.CKA_DECRYPT, True), (C.CKA_SIGN, True), (C.CKA_VERIFY, True), (C.CKA_WRAP, False), (C.CKA_UNWRAP, False),
-           (C.CKA_DERIVE, True), (C.CKA_WRAP_WITH_TRUSTED, False), (C.CKA_COPYABLE, True), (C.CKA_DESTROYABLE, True), (C.CKA_MODIFIABLE, True), (C.CKA_TOKEN, False), (C.CKA_PRIVATE, False),
-           (C.CKA_START_DATE, b"20200101"), (C.CKA_END_DATE, b"20400101"), (C.CKA_CLASS, C.CKO_SECRET_KEY), (C.CKA_KEY_TYPE, C.CKK_GENERIC_SECRET),
-           (C.CKA_ALLOWED_MECHANISMS, ul(C.CKM_SHA256_HMAC)), (C.CKA_WRAP_TEMPLATE, [(C.CKA_ENCRYPT, True)]), (C.CKA_UNWRAP_TEMPLATE, [(C.CKA_ENCRYPT, True)]),
-           (C.CKA_LABEL, b"again-1"), (C.CKA_ID, b"again-2"), (C.CKA_ENCRYPT, True), (C.CKA_DECRYPT, True), (C.CKA_SIGN, True), (C.CKA_VERIFY, True), (C.CKA_DERIVE, True), (C.CKA_LABEL, b"again-3"),
-           (C.CKA_ID, b"again-4"), (C.CKA_ENCRYPT, True)]
+_F1 = [(C.CKA_LABEL, b"ladder"), (C.CKA_ID, b"id"), (C.CKA_ENCRYPT, True), (C.CKA_DECRYPT, True), (C.CKA_SIGN, True), (C.CKA_VERIFY, True), (C.CKA_WRAP, False), (C.CKA_UNWRAP, False),
+       (C.CKA_DERIVE, True), (C.CKA_WRAP_WITH_TRUSTED, False), (C.CKA_COPYABLE, True), (C.CKA_DESTROYABLE, True), (C.CKA_MODIFIABLE, True), (C.CKA_START_DATE, b"20200101"), (C.CKA_END_DATE, b"20400101")]
+# the same harmless entries again (a repeated attribute is legal in a derive template and takes another slot), until well beyond any internal capacity
+FILLERS = _F1 + [(t, (v + b"-%d" % i) if isinstance(v, bytes) and t in (C.CKA_LABEL, C.CKA_ID) else v) for i in (2, 3) for (t, v) in _F1]
 
 
 def _ladder_task(task):
